@@ -309,6 +309,8 @@ class FortranAST:
                             child.update_fqsn(parent_scope.FQSN)
                     include_ast.none_scope = parent_scope
                     inc.scope_objs = added_entities
+                    # PUBLIC/PRIVATE statements that name included entities
+                    self.apply_visibility()
             elif added_entities:
                 # The included file is gone, drop what it had contributed
                 for obj in added_entities:
@@ -336,6 +338,9 @@ class FortranAST:
             self.none_scope.end(line_number)
             self.scope_list.remove(self.none_scope)
         # Tasks to be done when file parsing is finished
+        self.apply_visibility()
+
+    def apply_visibility(self):
         for private_name in self.private_list:
             obj = self.get_object(private_name)
             if obj is not None:
